@@ -1,6 +1,7 @@
 package vlib
 
 import (
+	"context"
 	"crypto/tls"
 	"fmt"
 	"io"
@@ -9,6 +10,7 @@ import (
 	"runtime/debug"
 	"sort"
 	"strings"
+	"time"
 )
 
 // Req is a JSON-serialisable request: method plus header field lines (canonical keys as Go's server
@@ -21,7 +23,7 @@ type Req struct {
 
 // Attrs are properties of an http.Request other than its method and headers that a server-side component could
 // look at: protocol version, TLS, Host, path, remote address, a body.
-var Attrs = []string{"h2", "h3", "h1.0", "tls", "host", "path", "remote", "body"}
+var Attrs = []string{"h2", "h3", "h1.0", "tls", "host", "path", "remote", "body", "cancelled", "deadline-passed", "context-values"}
 
 func (r Req) attrSuffix() string {
 	if r.Attr == "" {
@@ -60,6 +62,16 @@ func (r Req) HTTP() *http.Request {
 		q.Proto, q.ProtoMajor, q.ProtoMinor = "HTTP/1.0", 1, 0
 	case "tls":
 		q.TLS = &tls.ConnectionState{ServerName: "server.test"}
+	case "cancelled":
+		ctx, cancel := context.WithCancel(context.Background())
+		cancel()
+		q = q.WithContext(ctx)
+	case "deadline-passed":
+		ctx, cancel := context.WithDeadline(context.Background(), time.Unix(1, 0))
+		cancel()
+		q = q.WithContext(ctx)
+	case "context-values":
+		q = q.WithContext(context.WithValue(context.Background(), ctxKey{}, "v"))
 	case "host":
 		q.Host = "a.example"
 	case "path":
@@ -74,12 +86,16 @@ func (r Req) HTTP() *http.Request {
 	return q
 }
 
+type ctxKey struct{}
+
 // Rec is a minimal recording http.ResponseWriter.
 type Rec struct {
 	H      http.Header
 	Status int // first status passed to WriteHeader, 0 if never called
 	Body   []byte
 	WroteN int // number of WriteHeader calls
+	// AllowRewrite: count further WriteHeader calls after a final status (in WroteN) instead of treating them as errors
+	AllowRewrite bool
 }
 
 func NewRec() *Rec { return &Rec{H: make(http.Header)} }
@@ -95,8 +111,13 @@ func (r *Rec) WriteHeader(code int) {
 	if code < 100 || code > 999 {
 		panic(fmt.Sprintf("invalid WriteHeader code %v", code)) // as net/http's response writer and httptest's recorder do
 	}
+	if r.Status >= 200 && !r.AllowRewrite {
+		// net/http ignores the call and logs "superfluous response.WriteHeader call"; writers that buffer keep the last
+		// status and the headers as they are then. Either way one of the two answers is not what the client gets.
+		panic(fmt.Sprintf("WriteHeader(%d) called after WriteHeader(%d) for the same request", code, r.Status))
+	}
 	r.WroteN++
-	if r.Status == 0 {
+	if r.Status == 0 || r.Status < 200 {
 		r.Status = code
 	}
 }
@@ -145,9 +166,23 @@ func (r Resp) Sig() string {
 // Serve runs one request through h (already wrapped) with optional pre-set response headers.
 func Serve(h http.Handler, calls *int, req Req, preset map[string][]string) Resp {
 	rec := NewRec()
+	// an earlier link of the chain put its own, long-lived value slices into the map (w.Header()[k] = v): replacing
+	// a header is the middleware's right, writing through into that storage is not
+	keep := make(map[string][]string, len(preset))
 	for k, v := range preset {
-		rec.H[k] = append([]string(nil), v...)
+		keep[k] = append([]string(nil), v...)
+		rec.H[k] = v[:len(v):len(v)]
 	}
+	defer func() {
+		for k, v := range preset {
+			for i := range v {
+				if v[i] != keep[k][i] {
+					preset[k][i] = keep[k][i] // (restore: the map is shared by later calls)
+					panic(fmt.Sprintf("the value slice that an earlier handler had stored under %q in the response header map was overwritten in place: element %d was %q, is now %q", k, i, keep[k][i], v[i]))
+				}
+			}
+		}
+	}()
 	before := 0
 	if calls != nil {
 		before = *calls
@@ -163,6 +198,11 @@ func Serve(h http.Handler, calls *int, req Req, preset map[string][]string) Resp
 			continue // a key with zero values produces no field line on the wire
 		}
 		res.Hdr[k] = append([]string(nil), v...)
+	}
+	// what an outer layer may do once the handler has returned (a compression layer adds to Vary, a logger adds a
+	// header): append to the value slices it finds. On slices with spare capacity this writes behind their end.
+	for k, v := range rec.H {
+		rec.H[k] = append(v, "appended-by-an-outer-layer")
 	}
 	if calls != nil {
 		res.HandlerCalls = *calls - before
